@@ -954,10 +954,13 @@ pub fn gen_history(rng: &mut Rng, shape: &Shape) -> History {
                 sim.maps.remove(&pid);
             }
             _ => {
-                // MMAP2
+                // MMAP2 (a process may be first seen through a mapping record)
                 let pid = some_pid(rng, &sim);
                 if !sim.live.contains_key(&pid) && !violate {
-                    continue;
+                    if rng.chance(2, 3) {
+                        continue;
+                    }
+                    sim.live.entry(pid).or_default();
                 }
                 let tid = if rng.chance(3, 4) { pid } else { some_tid(rng, &sim, pid) };
                 if !shape.mappings && !rng.chance(1, 3) {
